@@ -188,6 +188,9 @@ class BaseComponent(Manager):
             self.parent = self
 
         self._updateRoot(self)
+        # Root of its own tree (again): whatever this component cached when
+        # it was a root earlier does not reflect the changes made since.
+        self._cache_needs_refresh = True
         return self
 
     def _updateRoot(self, root):
